@@ -9,6 +9,7 @@ rundemo() {
   if [ -f $out/demo.sh ]; then (cd $wt && bash $out/demo.sh $wt >/tmp/confirm_$name.log 2>&1); return $?; fi
   # go test demo: copy *_test.go into the directory named in meta (first tooling/... path found)
   dir=$(echo "$how" | grep -o 'tooling/[A-Za-z0-9_/]*' | head -1)
+  [ -d $wt/$dir ] || dir=$(dirname $dir)
   tf=$(ls $out/*_test.go | head -1)
   cp $tf $wt/$dir/zz_seed_demo_test.go
   (cd $wt/$dir && go test -vet=off -count=1 -run . . >/tmp/confirm_$name.log 2>&1); rc=$?
